@@ -36,13 +36,6 @@ def gaccepts (G : Graph n) : GOp → Bool
 def removeVertex (G : Graph n) (v : Fin n) : Graph n :=
   ((Graph.empty : Graph n).addEdges ((G.inducedEdges v).map fun (x, y, k) => (x.1, y.1, (k : Int)))).1
 
-/-! ### divisor / configuration moves -/
-
-inductive DOp where
-  | lend (v : Nat) | borrow (v : Nat) | fire (S : List Nat) | transfer (a b : Nat) (k : Int)
-  | cfgLend (v : Nat) | cfgBorrow (v : Nat) | cfgFire (S : List Nat)
-  | cfgDegreeAt (v : Nat)
-
 def setOf (l : List (Fin n)) : Fin n → Bool := fun v => l.contains v
 
 /-- resolve every reference or fail -/
@@ -51,6 +44,40 @@ def refs? (n : Nat) : List Nat → Option (List (Fin n))
   | i :: is => match ref? n i, refs? n is with
     | some v, some vs => some (v :: vs)
     | _, _ => none
+
+/-! ### configuration queries -/
+
+/-- `get_out_degree_S(v, S)` -/
+def outDegS (G : Graph n) (S : Fin n → Bool) (v : Fin n) : Int :=
+  sumZ fun w => if S w then 0 else (G.adj v w : Int)
+
+/-- `is_legal_set_firing(S)`: fire a copy, look at the members -/
+def isLegalFiring (G : Graph n) (D : Fin n → Int) (S : List (Fin n)) : Bool :=
+  if S.isEmpty then false else
+  let D' := fireSet G (setOf S) D
+  S.all fun v => decide (0 ≤ D' v)
+
+/-- all sublists (subsets of `V∖{q}` in index order) -/
+def sublists {α : Type} : List α → List (List α)
+  | [] => [[]]
+  | x :: xs => let r := sublists xs; r ++ r.map (x :: ·)
+
+def vtilde (q : Fin n) : List (Fin n) := (List.finRange n).filter (· ≠ q)
+
+def nonNegOffQ (q : Fin n) (D : Fin n → Int) : Bool := (vtilde q).all fun v => decide (0 ≤ D v)
+
+/-- `is_superstable`: non-negative off q and no non-empty subset is a legal firing -/
+def isSuperstable (G : Graph n) (q : Fin n) (D : Fin n → Int) : Bool :=
+  nonNegOffQ q D && (sublists (vtilde q)).all fun S => !isLegalFiring G D S
+
+/-! ### divisor / configuration moves -/
+
+inductive DOp where
+  | lend (v : Nat) | borrow (v : Nat) | fire (S : List Nat) | transfer (a b : Nat) (k : Int)
+  | cfgLend (v : Nat) | cfgBorrow (v : Nat) | cfgFire (S : List Nat)
+  | cfgDegreeAt (v : Nat)
+  | cfgSuperstable | cfgLegal (S : List Nat) | cfgNonNeg
+  | swap (a b : Nat)      -- harness macro: chip_transfer of |D a − D b| from the richer to the poorer
 
 /-- one operation on a divisor (degrees only: no move touches the cached total).
     `q` = sink of the configuration wrapper, if the object is driven through one. -/
@@ -81,6 +108,25 @@ def dstep (G : Graph n) (q : Option (Fin n)) (D : Vec Int n) : DOp → Except Un
   | .cfgDegreeAt v => match q, ref? n v with
     | some q, some v => if v = q then .error () else .ok (D, some (D.get v))
     | _, _ => .error ()
+  | .swap a b => match ref? n a, ref? n b with
+    | some a, some b =>
+      if D.get b < D.get a then .ok (mat (transfer D.get a b (D.get a - D.get b)), none)
+      else if D.get a < D.get b then .ok (mat (transfer D.get b a (D.get b - D.get a)), none)
+      else .ok (D, none)
+    | _, _ => .error ()
+  | .cfgSuperstable => match q with
+    | some q => .ok (D, some (if isSuperstable G q D.get then 1 else 0))
+    | none => .error ()
+  | .cfgNonNeg => match q with
+    | some q => .ok (D, some (if nonNegOffQ q D.get then 1 else 0))
+    | none => .error ()
+  | .cfgLegal S => match q with
+    | some q =>
+      if S.isEmpty then .ok (D, some 0) else
+      match refs? n S with
+      | some vs => if vs.contains q then .error () else .ok (D, some (if isLegalFiring G D.get vs then 1 else 0))
+      | none => .error ()
+    | none => .error ()
 
 /-- run a history; a refused operation leaves the state as it was -/
 def drun (G : Graph n) (q : Option (Fin n)) : Vec Int n → List DOp → List (Bool × Vec Int n × Option Int)
@@ -240,31 +286,6 @@ end Orient
 
 /-- `canonical_divisor`: cached valence − 2 -/
 def canonicalOf (G : Graph n) : Fin n → Int := fun v => (G.val v : Int) - 2
-
-/-! ### configuration queries -/
-
-/-- `get_out_degree_S(v, S)` -/
-def outDegS (G : Graph n) (S : Fin n → Bool) (v : Fin n) : Int :=
-  sumZ fun w => if S w then 0 else (G.adj v w : Int)
-
-/-- `is_legal_set_firing(S)`: fire a copy, look at the members -/
-def isLegalFiring (G : Graph n) (D : Fin n → Int) (S : List (Fin n)) : Bool :=
-  if S.isEmpty then false else
-  let D' := fireSet G (setOf S) D
-  S.all fun v => decide (0 ≤ D' v)
-
-/-- all sublists (subsets of `V∖{q}` in index order) -/
-def sublists {α : Type} : List α → List (List α)
-  | [] => [[]]
-  | x :: xs => let r := sublists xs; r ++ r.map (x :: ·)
-
-def vtilde (q : Fin n) : List (Fin n) := (List.finRange n).filter (· ≠ q)
-
-def nonNegOffQ (q : Fin n) (D : Fin n → Int) : Bool := (vtilde q).all fun v => decide (0 ≤ D v)
-
-/-- `is_superstable`: non-negative off q and no non-empty subset is a legal firing -/
-def isSuperstable (G : Graph n) (q : Fin n) (D : Fin n → Int) : Bool :=
-  nonNegOffQ q D && (sublists (vtilde q)).all fun S => !isLegalFiring G D S
 
 /-- comparison operators of `CFConfig` (0 eq, 1 ge, 2 le, 3 lt, 4 gt); `comparable` = same q and
     structurally equal graphs -/
